@@ -183,6 +183,10 @@ class Scenario:
         w = self.w
         loop = asyncio.get_running_loop()
         now = loop.time()
+        if self.closed_at is not None and abs(now - self.closed_at) <= 1e-9 and kind not in ("close", "shutdown"):
+            # fired at the SAME virtual instant as close() but after it in program order (a random timeline may put two
+            # triggers on one millisecond): it is a trigger after the close
+            now = self.closed_at + 2e-9
         if kind == "reconnect_soon":
             # connection.reconnect_soon() is the internal hook the pairing calls for a zeroconf sighting; the pairing guards
             # it with its shutdown flag, so after shutdown() the public trigger is the (guarded) description update
